@@ -1,14 +1,24 @@
 #!/usr/bin/env python3
-"""MANIFEST.setup_cmd: build the framework offline from files on disk (Lean library + driver).
+"""MANIFEST.setup_cmd: build the framework offline from files on disk (Lean driver + every property module).
 The C++ harnesses are built by the checks themselves from /repo's current working tree."""
+import glob
 import os
 import sys
 sys.path.insert(0, os.path.dirname(os.path.abspath(__file__)))
 import common
 
-ok, log = common.lean_build()
-print(log[-2000:])
-if not ok:
+ok, log = common.lean_build("Sigc.Run")
+print(log[-1500:])
+if not ok or not os.path.exists(common.driver()):
+    print("driver does not build")
     sys.exit(1)
-print("driver:", common.driver(), os.path.exists(common.driver()))
-sys.exit(0 if os.path.exists(common.driver()) else 1)
+bad = []
+for f in sorted(glob.glob(os.path.join(common.LEAN, "Sigc", "Props", "*.lean"))):
+    mod = "Sigc.Props." + os.path.basename(f)[:-5]
+    ok, log = common.lean_build(mod)
+    print(mod, "ok" if ok else "FAILED")
+    if not ok:
+        bad.append(mod)
+        print(log[-1500:])
+print("driver:", common.driver(), "property modules that do not build:", bad)
+sys.exit(0)
